@@ -103,6 +103,11 @@ type wrAudit struct {
 	Writes   []wrWrite  `json:"writes"`
 	Events   []wrEvent  `json:"events"`
 	Steps    int        `json:"steps"`
+	// C14: what the cache looks like once every call has returned and the goroutines it started have finished, BEFORE any further
+	// call is made (read from the unexported state, no cache method is called)
+	PreIdle  int        `json:"preidle"`  // 1 = drain status idle and write buffer empty at that moment
+	PreOver  int        `json:"preover"`  // 1 = the policy's own total exceeded its maximum at that moment
+	PostOver int        `json:"postover"` // 1 = it still did after one explicit CleanUp
 	LibPanic string     `json:"libpanic"` // panic raised by the code under test in a goroutine the cache started
 }
 
@@ -292,6 +297,10 @@ func runWRScenario(sc wrScenario) (a wrAudit) {
 			}
 			time.Sleep(time.Millisecond)
 			c.cache.evictionMutex.Unlock()
+			if sc.SmallBuf == 3 {
+				// like every holder of the eviction mutex inside the library: look for work that arrived meanwhile
+				c.cache.rescheduleCleanUpIfIncomplete()
+			}
 		}()
 	}
 	var libPanic atomic.Value
@@ -502,6 +511,31 @@ func runWRScenario(sc wrScenario) (a wrAudit) {
 }
 
 func runWRPost(sc wrScenario, c *Cache[int, int], a *wrAudit, mu *sync.Mutex, record func(wrWrite), clk *manualClock) {
+	if c.cache.withEviction {
+		// C14: all calls have returned; give the goroutines the cache started time to finish, then look without calling anything
+		for i := 0; i < 300 && c.cache.drainStatus.Load() != idle; i++ {
+			time.Sleep(time.Millisecond)
+		}
+		time.Sleep(3 * time.Millisecond)
+		if c.cache.evictionMutex.TryLock() { // (nobody is inside maintenance)
+			if c.cache.drainStatus.Load() == idle && c.cache.writeBuffer.Size() == 0 {
+				a.PreIdle = 1
+				if c.cache.evictionPolicy.weightedSize > c.cache.evictionPolicy.maximum {
+					a.PreOver = 1
+				}
+			}
+			c.cache.evictionMutex.Unlock()
+		}
+		if a.PreOver == 1 {
+			c.CleanUp()
+			time.Sleep(2 * time.Millisecond)
+			c.cache.evictionMutex.Lock()
+			if c.cache.evictionPolicy.weightedSize > c.cache.evictionPolicy.maximum {
+				a.PostOver = 1
+			}
+			c.cache.evictionMutex.Unlock()
+		}
+	}
 	if sc.Stale == 1 {
 		type held struct {
 			n node.Node[int, int]
